@@ -1,9 +1,12 @@
 '''
-C20: Raptor design model (exhaustive TLC: worker 3 cores + 2 GPUs, 4 requests,
-all request / completion / failure / timeout orders), TLC behaviours replayed
-as schedules into the real Master / DefaultWorker / dispatchers and into the
-real scheduler hand-off, seeded random schedules, the dispatcher catalogue
-(every payload kind in every mode, singly and in pairs), and validation of every
+C20: Raptor design models (exhaustive TLC) - the default worker path (worker
+3 cores + 2 GPUs, 4 requests, all request / completion / failure / timeout
+orders, the dispatch process pair of a request with timeout stepped operation
+by operation) and the MPI worker (3 ranks, per-rank outcomes); TLC behaviours
+replayed as schedules into the real Master / DefaultWorker / MPI worker
+classes / dispatchers and into the real scheduler hand-off; exhaustive
+exploration of the interleavings of the real _dispatch parent and child;
+seeded random schedules; the dispatcher catalogue; validation of every
 recorded trace by the RaptorTrace monitor.
 '''
 
@@ -15,6 +18,7 @@ import shutil
 
 from .. import tlc, tracecheck
 from ..core import Machinery
+from .. import sched_ctl as SC
 from ..rigs import raptor_rig as R
 from ..rigs import sched_rig  as SR
 
@@ -43,6 +47,21 @@ SCENARIOS = [
 CLS_BASE    = 'request stream'
 CLS_ENV     = 'python payload changes os.environ (dispatcher rebinds os.environ instead of restoring it)'
 CLS_SCHED   = 'scheduler hand-off'
+CLS_MPI     = 'MPI worker request stream'
+CLS_MPISIG  = 'MPI worker: a rank is killed by a signal (rank exit code below zero)'
+
+NRANKS = 3
+MPI_INVARIANTS = ['TypeOK', 'InvNoShare', 'InvDemandMet', 'InvOccMatches', 'InvAllBack',
+                  'InvResultOnce', 'InvAgg', 'InvTarget', 'InvEvt']
+MPI_DEVS = ['DevAggMin', 'DevAggSignedMax', 'DevAllocBusy', 'DevNoDealloc']
+# (ranks, mode, possible rank outcomes)
+MPI_SCENARIOS = [
+    ('three', {'r1': (2, 'func', ['ok', 'raise']), 'r2': (3, 'eval', ['ok', 'raise']),
+               'r3': (1, 'shell', ['ok', 'raise'])}),
+    ('four',  {'r1': (2, 'shell', ['ok', 'raise']), 'r2': (3, 'func', ['ok', 'raise']),
+               'r3': (1, 'eval', ['ok', 'raise']), 'r4': (2, 'func', ['ok', 'raise'])}),
+]
+MPI_SIG = ('sig', {'r1': (2, 'shell', ['ok', 'sig']), 'r2': (3, 'shell', ['ok', 'raise', 'sig'])})
 
 
 # ------------------------------------------------------------------------------
@@ -71,6 +90,62 @@ def mc_files(reqs, devs=(), invariants=None):
     for i in (INVARIANTS if invariants is None else invariants):
         cfg += 'INVARIANT %s\n' % i
     return {'MC.tla': mod, 'MC.cfg': cfg}
+
+
+def mpi_files(scen, devs=(), invariants=None):
+    ids = sorted(scen)
+
+    def case(f):
+        return ' [] '.join('r = "%s" -> %s' % (u, f(scen[u])) for u in ids)
+    mod = ('---- MODULE MCM ----\nEXTENDS RaptorMPI\n'
+           'MCReqs == {%s}\n' % ', '.join('"%s"' % u for u in ids)
+           + 'MCNeed == [r \\in MCReqs |-> CASE %s]\n' % case(lambda q: str(q[0]))
+           + 'MCOuts == [r \\in MCReqs |-> CASE %s]\n====\n'
+           % case(lambda q: '{' + ', '.join('"%s"' % o for o in q[2]) + '}'))
+    cfg = ('CONSTANTS\n NRanks = %d\n Reqs <- MCReqs\n Need <- MCNeed\n Outs <- MCOuts\n' % NRANKS)
+    for d in MPI_DEVS:
+        cfg += ' %s = %s\n' % (d, 'TRUE' if d in devs else 'FALSE')
+    cfg += 'SPECIFICATION Spec\n'
+    for i in (MPI_INVARIANTS if invariants is None else invariants):
+        cfg += 'INVARIANT %s\n' % i
+    return {'MCM.tla': mod, 'MCM.cfg': cfg}
+
+
+def mpi_from_behaviour(path, scen):
+    '''(requests, script) of one TLC behaviour of RaptorMPI: the ranks' outcomes
+       are those chosen in the initial state'''
+    steps = tlc.parse_sim_file(path)
+    oc    = steps[0][2]['oc']
+    reqs  = {}
+    for u, (n, mode, outs) in scen.items():
+        v  = oc[u]
+        rk = [v[i] for i in range(n)] if isinstance(v, dict) else list(v)[:n]
+        reqs[u] = R.mpi_req(n, mode, rk)
+    script = []
+    for name, args, _ in steps:
+        ids = re.findall(r'"(\w+)"', args or '')
+        if   name == 'Submit' : script.append(('submit', ids[0]))
+        elif name in ('MTake', 'MRetry'): script.append(('T',))
+        elif name == 'RankRun': script.append(('K', int(args.strip())))
+        elif name == 'Collect': script.append(('U', ids[0], int(re.findall(r',\s*(\d+)', args)[0])))
+        elif name == 'Result' : script.append(('result', ids[0]))
+    return reqs, script
+
+
+def random_mpi(rng, sig):
+    reqs = {}
+    for i in range(rng.randint(2, 5)):
+        n    = rng.randint(1, NRANKS)
+        mode = 'shell' if (sig and i == 0) else rng.choice(R.MPI_MODES)
+        outs = ['ok', 'ok', 'raise'] + (['sig'] if sig and mode == 'shell' else [])
+        rk   = [rng.choice(outs) for _ in range(n)]
+        if sig and i == 0:
+            n  = max(n, 2)
+            rk = [rng.choice(['ok', 'ok', 'raise']) for _ in range(n)]
+            j  = rng.randrange(n)
+            rk[j], rk[(j + 1) % n] = 'sig', 'ok'
+        reqs['r%d' % (i + 1)] = R.mpi_req(n, mode, rk)
+    return reqs
 
 
 # ------------------------------------------------------------------------------
@@ -172,6 +247,8 @@ def classify(inp, clause):
         return CLS_ENV
     fam = inp['family']
     if fam == 'sched'  : return CLS_SCHED
+    if fam == 'mpi'    : return CLS_MPI
+    if fam == 'mpi-sig': return CLS_MPISIG
     return CLS_BASE
 
 
@@ -182,6 +259,10 @@ def run_input(inp):
                            ncores=NCORES, ngpus=NGPUS).run()
     if k == 'random':
         return R.RaptorRig(inp['reqs'], seed=inp['seed'], ncores=NCORES, ngpus=NGPUS).run()
+    if k == 'mpi-script':
+        return R.MPIRig(inp['reqs'], script=[tuple(o) for o in inp['script']], nranks=NRANKS).run()
+    if k == 'mpi-random':
+        return R.MPIRig(inp['reqs'], seed=inp['seed'], nranks=NRANKS).run()
     if k == 'chain':
         return R.ChainRig([tuple(c) for c in inp['calls']]).run()
     if k == 'sched-script':
@@ -213,33 +294,60 @@ def validate(chk, traces, inputs, what):
 
 
 # ------------------------------------------------------------------------------
+EXPLORE_REQS = {'r1': Q(1, 1, 'func', 'ret', tmo=1), 'r2': Q(1, 0, 'eval', 'ret')}
+EXPLORE_HEAD = [('dispatch', 'r1'), ('dispatch', 'r2'), ('take', 'r1'), ('take', 'r2')]
+
+
+def explore_dispatch(add):
+    '''all interleavings of the real _dispatch parent and its real child for a
+       request with timeout, a second request being under way (it is the one
+       which shows whether the result thread is still alive afterwards)'''
+    found = []
+
+    def make_run(ch):
+        rig = R.RaptorRig(EXPLORE_REQS, script=EXPLORE_HEAD + [('finish', 'r1', ch)],
+                          ncores=NCORES, ngpus=NGPUS)
+        return None, rig.run()
+    for tr in SC.explore(make_run, max_runs=2000):
+        fin = [e for e in tr['events'] if e['ev'] == 'Fin' and e['uid'] == 'r1'][0]
+        found.append(fin['o'])
+        # recorded as a replayable scripted run: the schedule which was taken
+        add({'family': 'base', 'kind': 'script', 'scenario': 'explore', 'reqs': EXPLORE_REQS,
+             'script': EXPLORE_HEAD + [('finish', 'r1', fin['o'])]}, tr)
+    return found
+
+
 def run(chk, tier, seed):
     rng   = random.Random(seed * 7919 + 20)
     quick = tier == 'quick'
 
-    # ---- 1. design model, exhaustive --------------------------------------------
+    # ---- 1. design models, exhaustive -----------------------------------------------
     for name, reqs in ([SCENARIOS[0], SCENARIOS[2]] if quick else SCENARIOS):
-        res = tlc.run('Raptor', 'MC', 'MC.cfg', workers=8, timeout=600,
+        res = tlc.run('Raptor', 'MC', 'MC.cfg', workers=8, timeout=900,
                       extra_files=mc_files(reqs))
         chk.add_tlc(res, 'exhaustive:' + name)
         if not res.ok:
             raise Machinery('design model Raptor violates %s in scenario %s (intended design '
                             'must hold):\n%s' % (res.violated, name, res.trace[:3000]))
+    for name, scen in (MPI_SCENARIOS[:1] if quick else MPI_SCENARIOS + [MPI_SIG]):
+        res = tlc.run('Raptor', 'MCM', 'MCM.cfg', workers=8, timeout=900,
+                      extra_files=mpi_files(scen))
+        chk.add_tlc(res, 'exhaustive:mpi:' + name)
+        if not res.ok:
+            raise Machinery('design model RaptorMPI violates %s in scenario %s (intended '
+                            'design must hold):\n%s' % (res.violated, name, res.trace[:3000]))
     chk.exhaustive = True
 
-    # ---- 2. deviation sensitivity -----------------------------------------------
+    # ---- 2. deviation sensitivity ---------------------------------------------------
     if not quick:
-        sysx = dict(SCENARIOS[0][1])
-        sysx['r1'] = Q(2, 1, 'func', 'sysexit', tmo=1)
         expect = [(['DevNoDeallocOnSpawnFail'], SCENARIOS[0][1], ('InvOccMatches', 'InvAllBack')),
                   (['DevAllocIgnoresBusy'], SCENARIOS[0][1], ('InvNoShare',)),
-                  (['DevTimeoutRace', 'DevDupKillsWatcher'], SCENARIOS[0][1], ('deadlock',)),
-                  (['DevSysExitLost'], sysx, ('deadlock',)),
+                  (['DevPutOutsideLock', 'DevDupKillsWatcher'], SCENARIOS[0][1], ('deadlock',)),
                   (['DevTargetIgnoresMissing'], SCENARIOS[0][1], ('InvTarget',)),
                   (['DevNoSeen'], SCENARIOS[0][1], ('InvRouting',)),
                   (['DevEnvLeak'], SCENARIOS[1][1], ('InvRestored',))]
         for devs, reqs, invs in expect:
-            res = tlc.run('Raptor', 'MC', 'MC.cfg', workers=8, timeout=600,
+            res = tlc.run('Raptor', 'MC', 'MC.cfg', workers=8, timeout=900,
                           extra_files=mc_files(reqs, devs=devs))
             chk.add_tlc(res, 'deviation:' + '+'.join(devs))
             if res.ok or res.violated not in invs:
@@ -247,87 +355,98 @@ def run(chk, tier, seed):
                                 % (devs, res.violated))
             chk.notes.append('deviation %s breaks %s in the design model'
                              % ('+'.join(devs), res.violated))
-        # the duplicate alone is harmless as long as the second copy is dropped
-        res = tlc.run('Raptor', 'MC', 'MC.cfg', workers=8, timeout=600,
-                      extra_files=mc_files(SCENARIOS[0][1], devs=['DevTimeoutRace']))
-        chk.add_tlc(res, 'deviation:DevTimeoutRace (duplicate dropped)')
-        if not res.ok:
-            raise Machinery('DevTimeoutRace alone should be tolerated: %s' % res.violated)
+        mexpect = [('DevAggMin', MPI_SCENARIOS[0][1], ('InvAgg', 'InvTarget')),
+                   ('DevAggSignedMax', MPI_SIG[1], ('InvAgg', 'InvTarget')),
+                   ('DevAllocBusy', MPI_SCENARIOS[0][1], ('InvNoShare',)),
+                   ('DevNoDealloc', MPI_SCENARIOS[0][1], ('InvOccMatches', 'InvAllBack'))]
+        for dev, scen, invs in mexpect:
+            res = tlc.run('Raptor', 'MCM', 'MCM.cfg', workers=8, timeout=900,
+                          extra_files=mpi_files(scen, devs=[dev]))
+            chk.add_tlc(res, 'deviation:mpi:' + dev)
+            if res.ok or res.violated not in invs:
+                raise Machinery('deviation %s not detected by the MPI model (got %s)'
+                                % (dev, res.violated))
+            chk.notes.append('deviation %s breaks %s in the MPI design model' % (dev, res.violated))
 
     traces, inputs = [], []
 
-    def add(inp):
-        traces.append(run_input(inp))
+    def add(inp, tr=None):
+        traces.append(run_input(inp) if tr is None else tr)
         inputs.append(inp)
 
-    # ---- 3. TLC behaviours -> schedules for the real classes ---------------------
+    # ---- 3. TLC behaviours -> schedules for the real classes -------------------------
     nsim = 25 if quick else 250
-    plan = []
-    for name, reqs in ([SCENARIOS[0], rng.choice(SCENARIOS[1:])] if quick else SCENARIOS):
-        plan.append(('base', name, reqs))
-    for name, reqs in ([rng.choice(SCENARIOS)] if quick else SCENARIOS):
-        plan.append(('late', name, reqs))
-    for i in range(1 if quick else 4):
-        plan.append(('sysexit', 'rand%d' % i, random_reqs(rng, 4, 'sysexit')))
+    plan = [('base', n, r) for n, r in
+            ([SCENARIOS[0], rng.choice(SCENARIOS[1:])] if quick else SCENARIOS)]
     for i in range(0 if quick else 6):
         plan.append(('base', 'rand%d' % i, random_reqs(rng, 4, 'base')))
     for fam, name, reqs in plan:
         dump = tlc.scratch('rpsim_')
         try:
-            files = mc_files(reqs, devs=['DevTimeoutRace'] if fam == 'late' else [],
-                             invariants=['TypeOK'])
             res = tlc.run('Raptor', 'MC', 'MC.cfg', workers=1, timeout=300,
-                          simulate='num=%d' % nsim, depth=80, seed=rng.randrange(10 ** 6),
-                          dump_dir=dump, extra_files=files)
+                          simulate='num=%d' % nsim, depth=120, seed=rng.randrange(10 ** 6),
+                          dump_dir=dump, extra_files=mc_files(reqs, invariants=['TypeOK']))
             chk.add_tlc(res, 'simulate:%s:%s' % (fam, name))
             info = sched_info(reqs)
             for f in sorted(glob.glob(os.path.join(dump, 'tr_*'))):
                 ws, ss = scripts_from_behaviour(f)
                 add({'family': fam, 'kind': 'script', 'scenario': name, 'reqs': reqs,
                      'script': ws})
-                if fam == 'base':
-                    add({'family': 'sched', 'kind': 'sched-script', 'scenario': name,
-                         'info': info, 'script': ss})
+                add({'family': 'sched', 'kind': 'sched-script', 'scenario': name,
+                     'info': info, 'script': ss})
+        finally:
+            shutil.rmtree(dump, ignore_errors=True)
+    for name, scen in ([MPI_SCENARIOS[1]] if quick else MPI_SCENARIOS * 2 + [MPI_SIG] * 2):
+        dump = tlc.scratch('rpsim_')
+        try:
+            res = tlc.run('Raptor', 'MCM', 'MCM.cfg', workers=1, timeout=300,
+                          simulate='num=%d' % (2 * nsim), depth=80, seed=rng.randrange(10 ** 6),
+                          dump_dir=dump, extra_files=mpi_files(scen, invariants=['TypeOK']))
+            chk.add_tlc(res, 'simulate:mpi:' + name)
+            for f in sorted(glob.glob(os.path.join(dump, 'tr_*'))):
+                reqs, script = mpi_from_behaviour(f, scen)
+                sig = any('sig' in r['rk'] for r in reqs.values())
+                add({'family': 'mpi-sig' if sig else 'mpi', 'kind': 'mpi-script',
+                     'scenario': name, 'reqs': reqs, 'script': script})
         finally:
             shutil.rmtree(dump, ignore_errors=True)
 
-    # fixed schedules: one per deviating family, independent of the seed
-    add({'family': 'late', 'kind': 'script', 'scenario': 'fixed',
-         'reqs': {'r1': Q(1, 1, 'func', 'ret', tmo=1), 'r2': Q(1, 0, 'eval', 'ret')},
-         'script': [('dispatch', 'r1'), ('dispatch', 'r2'), ('take', 'r1'), ('take', 'r2'),
-                    ('finish', 'r1', 'late'), ('deliver', 'r1', 1), ('deliver', 'r1', 2),
-                    ('finish', 'r2', 'nat'), ('deliver', 'r2', 1)]})
-    add({'family': 'sysexit', 'kind': 'script', 'scenario': 'fixed',
-         'reqs': {'r1': Q(2, 1, 'func', 'sysexit'), 'r2': Q(1, 0, 'func', 'ret')},
-         'script': [('dispatch', 'r1'), ('dispatch', 'r2'), ('take', 'r1'), ('take', 'r2'),
-                    ('finish', 'r1', 'nat'), ('finish', 'r2', 'nat'), ('deliver', 'r2', 1)]})
+    # ---- 4. every interleaving of the real dispatch parent / child -------------------
+    scheds = explore_dispatch(add)
+    chk.notes.append('dispatch parent/child: %d interleavings explored on the real code'
+                     % len(scheds))
 
-    # ---- 4. seeded random schedules ---------------------------------------------
-    for fam, n in (('base', 150 if quick else 3000), ('late', 40 if quick else 600),
-                   ('sysexit', 40 if quick else 600)):
-        for i in range(n):
-            add({'family': fam, 'kind': 'random', 'seed': rng.randrange(10 ** 9),
-                 'reqs': random_reqs(rng, rng.randint(2, 6), fam)})
+    # ---- 5. seeded random schedules, fixed schedules ---------------------------------
+    # a rank killed by a signal (the other rank succeeds), both arrival orders
+    for order in ((0, 1), (1, 0)):
+        add({'family': 'mpi-sig', 'kind': 'mpi-script', 'scenario': 'fixed',
+             'reqs': {'r1': R.mpi_req(2, 'shell', ['ok', 'sig'])},
+             'script': [('submit', 'r1'), ('T',), ('K', 0), ('K', 1),
+                        ('U', 'r1', order[0]), ('U', 'r1', order[1]), ('result', 'r1')]})
+    for i in range(150 if quick else 3000):
+        add({'family': 'base', 'kind': 'random', 'seed': rng.randrange(10 ** 9),
+             'reqs': random_reqs(rng, rng.randint(2, 6), 'base')})
     for i in range(80 if quick else 1500):
         add({'family': 'sched', 'kind': 'sched-random', 'seed': rng.randrange(10 ** 9),
              'info': random_sched(rng), 'p_env': rng.choice([0.2, 0.35, 0.5])})
+    for i in range(60 if quick else 1200):
+        add({'family': 'mpi', 'kind': 'mpi-random', 'seed': rng.randrange(10 ** 9),
+             'reqs': random_mpi(rng, False)})
+    for i in range(10 if quick else 200):
+        add({'family': 'mpi-sig', 'kind': 'mpi-random', 'seed': rng.randrange(10 ** 9),
+             'reqs': random_mpi(rng, True)})
 
-    # ---- 5. the dispatcher catalogue: every kind in every mode, singly and in pairs
-    cat, catx = catalogue(False), catalogue(True)
+    # ---- 6. the dispatcher catalogue: every kind in every mode, singly and in pairs
+    cat = catalogue()
     for c in cat:
         add({'family': 'base', 'kind': 'chain', 'calls': [c]})
-    for c in catx:
-        add({'family': 'sysexit', 'kind': 'chain', 'calls': [c]})
     pairs = [(a, b) for a in cat for b in cat]
     if quick:
         pairs = rng.sample(pairs, 60)
     for a, b in pairs:
         add({'family': 'base', 'kind': 'chain', 'calls': [a, b]})
-    for a in catx:
-        for b in (rng.sample(cat, 4) if quick else cat):
-            add({'family': 'sysexit', 'kind': 'chain', 'calls': [a, b]})
 
-    # ---- 6. validate all traces with the monitor ----------------------------------
+    # ---- 7. validate all traces with the monitor --------------------------------------
     validate(chk, traces, inputs, 'real raptor trace')
     for tr, inp in zip(traces, inputs):
         if inp['kind'] == 'script' and any(e['ev'] == 'Poll' for e in tr['events']):
@@ -335,14 +454,19 @@ def run(chk, tier, seed):
                 {k: v for k, v in e.items() if k not in ('a', 'b')} for e in tr['events'][:14]]})
             break
     chk.assumptions += [
-        'the ZeroMQ request / result queues between master and worker are FIFO per sender and lossless',
+        'the ZeroMQ request / result queues between master and worker (and between rank 0 and the '
+        'ranks of the MPI worker) are FIFO per sender and lossless; messages are copies',
         'DefaultWorker._request_cb is called by one getter thread; the result thread interleaves '
         'with it only at _alloc/_dealloc (under _rlock), the pool (under _plock) and the '
         'wait-for-resources poll, which is the schedule point',
-        'the dispatch process and its child are emulated in-process (mp.Process replaced): the '
-        'fate of the child (ends by itself / hangs until the timeout / has put its result but is '
-        'still alive at the timeout) is a schedule choice; real OS-level races are not run',
+        'the dispatch process (real _dispatch) and its child (real nested _worker_proc) run as two '
+        'logical threads in one process: schedule points are res_lock acquire, result queue put, '
+        'res_done set / is_set, join(timeout) returning, terminate; the payload runs without '
+        'interruption; real OS processes are not started',
         'each emulated dispatch process starts from the worker process\' environment (process boundary)',
+        'MPI worker: puller, pusher and the ranks run as logical threads of one process with '
+        'stand-ins for the MPI communicator objects; schedule points are the queue reads and the '
+        'wait for the resource event; all ranks share one os.environ (steps are atomic)',
         'proc / shell payloads run real /bin/sh sub-processes']
 
 
